@@ -109,7 +109,9 @@ package closure
 //@   preserves cs[*]
 //@   records dyn
 //@   loop 1 invariant rangeindex + 1 <= len(cs) && scalls() == rangeindex + 1 && forall(j, 0, rangeindex + 1, scall(j, dyn, cs[j], env))
+//@   loop 1 invariant #values l != nil && isListV(l.Vl()) && len(l.V) == sz && forall(j, 0, rangeindex + 1, l.V[j] == sret(j, dyn))
 //@   ensures #order scalls() == len(cs) && forall(j, 0, len(cs), scall(j, dyn, cs[j], env))
+//@   ensures #values sz == len(cs) ==> isListV(result) && forall(j, 0, len(cs), result.List().V[j] == sret(j, dyn))
 
 // map literal
 //@ closure compile0$9
@@ -155,7 +157,9 @@ package closure
 //@   loop 1 invariant #b forall(j, 0, rangeindex + 1, ite(fun.Lazy, scall(j, thunkify, argCs[j], env), scall(j, dyn, argCs[j], env)))
 //@   ensures #count scalls() == len(argCs) + 1
 //@   ensures #order forall(j, 0, len(argCs), ite(fun.Lazy, scall(j, thunkify, argCs[j], env), scall(j, dyn, argCs[j], env)))
+//@   loop 1 invariant #values len(args) == len(argCs) && isfresh(args) && forall(j, 0, rangeindex + 1, args[j] == ite(fun.Lazy, sret(j, thunkify), sret(j, dyn)))
 //@   ensures #invoke scall(len(argCs), Call, fun) && result == sret(len(argCs), Call)
+//@   at call Call: assert #arguments-in-order arg0 == fun && len(arg1) == len(argCs) && forall(j, 0, len(argCs), arg1[j] == ite(fun.Lazy, sret(j, thunkify), sret(j, dyn)))
 
 //@ closure thunkify$1
 //@   props C06 C03
